@@ -116,7 +116,7 @@ def split_mps_tensor(
         smax = s_vec[0]
         keep = 0 if smax == 0 else int(np.sum((s_vec / smax) >= sim_params.threshold))
         keep = min(keep, sim_params.max_bond_dim)
-        keep = max(keep, sim_params.min_bond_dim)
+        keep = min(max(keep, sim_params.min_bond_dim), len(s_vec))
 
     left_tensor = u_mat[:, :keep]
     s_vec = s_vec[:keep]
